@@ -29,13 +29,11 @@ WRITERS = {
 def run(ctx, res):
     res.rules_run += ["C06.encaps (entries / indexes private; no public signature exposes &mut Entry, &mut Key or &mut Vec<Entry>)",
                       "C06.writers (the functions that structurally modify `entries` are exactly the reviewed set)",
-                      "C06.pair (per writer: the index maintenance calls, in the right order, with the right position)",
                       "C06.shift (shift_down decrements exactly the positions > index, shift_up increments exactly those >= index, representative and all others, every bucket visited)",
                       "C06.sorted (Indexes::insert keeps the representative minimal and `other` sorted; Indexes::remove promotes the smallest remaining position with an order-preserving removal)",
                       "C06.drop (each removal iterator has a Drop impl that drains it; their next removes through remove_at only)"]
     encaps(ctx, res)
     writers(ctx, res)
-    pair(ctx, res)
     shift(ctx, res)
     sorted_rule(ctx, res)
     sort_order_rule(ctx, res)
@@ -454,7 +452,7 @@ def drop_rule(ctx, res):
 
 
 # ---- C06.model: every operation on every small object with an exact index -----------------------------------------------
-def model_rule(ctx, res, only_index=False, rule="C06.model"):
+def model_rule(ctx, res, only_index=False, rule="C06.model", ops=None):
     """(only_index=True: report only operations that leave a stale index — what C15 depends on.)
     Induction step of "the object behaves like a plain ordered list and its key index never goes stale": from every
     abstract object with up to L entries (two keys, two values) whose index is exact, each mutating operation —
@@ -464,6 +462,7 @@ def model_rule(ctx, res, only_index=False, rule="C06.model"):
     from .. import objmodel
     from ..objmodel import KEYS, exact_index
     P = ctx.P
+    want_op = lambda name: ops is None or name in ops
     res.rules_run.append(rule + " (push / push_front / remove_at / insert / insert_front / remove / remove_unique / sort / from_vec / extend and the key queries, interpreted on every object of up to %d entries over two keys and two values with an exact index: list semantics, results, index exact afterwards)" % (4 if ctx.tier == "thorough" else 3))
     L = 4 if ctx.tier == "thorough" else 3
     objs = objmodel.list_objects(L)
@@ -528,6 +527,8 @@ def model_rule(ctx, res, only_index=False, rule="C06.model"):
             # -- push / push_front
             for k in KEYS:
                 for op, want in (("push", before + [(k, 9)]), ("push_front", [(k, 9)] + before)):
+                    if not want_op(op):
+                        continue
                     W = world()
                     oref, cid = W.mk_object(W.sh.st, before)
                     o = one(W.call(W.sh.st, root("root_object_" + op), [oref, W.key(k), W.val(9)]), op)
@@ -536,7 +537,7 @@ def model_rule(ctx, res, only_index=False, rule="C06.model"):
                     if fresh != Conc(int(k not in keys)):
                         fail(op, "result", "%s(%s) on %s returns %r, the key was %s" % (op, k, show(before), fresh, "absent" if k not in keys else "present"))
             # -- remove_at
-            for i in range(n + 2):
+            for i in range(n + 2) if want_op("remove_at") else ():
                 W = world()
                 oref, cid = W.mk_object(W.sh.st, before)
                 o = one(W.call(W.sh.st, root("root_object_remove_at"), [oref, Conc(i)]), "remove_at")
@@ -546,7 +547,7 @@ def model_rule(ctx, res, only_index=False, rule="C06.model"):
                 if got != (before[i] if i < n else None):
                     fail("remove_at", "result", "remove_at(%d) on %s returns %r" % (i, show(before), got))
             # -- insert / insert_front / remove, consumed 0, 1, all times, then dropped
-            for k in KEYS:
+            for k in KEYS if (want_op("insert") or want_op("insert_front") or want_op("remove") or want_op("remove_unique")) else ():
                 dups = [e for e in before if e[0] == k]
                 for consume in sorted({0, 1, len(dups) + 1}):
                     # insert
@@ -603,19 +604,39 @@ def model_rule(ctx, res, only_index=False, rule="C06.model"):
                     if not ok:
                         fail("remove_unique", "result", "remove_unique(%s) on %s returns %r" % (k, show(before), rv))
             # -- sort
-            W = world()
-            oref, cid = W.mk_object(W.sh.st, before)
-            o = one(W.call(W.sh.st, root("root_object_sort"), [oref]), "sort")
-            check_state(W, o, cid, "sort", before, sorted(before), "")
+            if want_op("sort"):
+                W = world()
+                oref, cid = W.mk_object(W.sh.st, before)
+                o = one(W.call(W.sh.st, root("root_object_sort"), [oref]), "sort")
+                check_state(W, o, cid, "sort", before, sorted(before), "")
             # -- bulk construction: from_vec keeps the entries and indexes every position
-            W = world()
-            st = W.sh.st
-            vec = st.new_obj(objmodel.AVec(tuple(W.entry(k, v) for k, v in before), "entries"))
-            o = one(W.call(st, root("root_object_from_vec"), [vec]), "from_vec")
-            cell = o.new_obj(o.outcome[1])
-            check_state(W, o, cell.id, "from_vec", before, before, "")
+            if want_op("from_vec"):
+                W = world()
+                st = W.sh.st
+                vec = st.new_obj(objmodel.AVec(tuple(W.entry(k, v) for k, v in before), "entries"))
+                o = one(W.call(st, root("root_object_from_vec"), [vec]), "from_vec")
+                cell = o.new_obj(o.outcome[1])
+                check_state(W, o, cell.id, "from_vec", before, before, "")
+            # -- canonicalize_with (feature `canonicalize`): every value canonicalised, then members ordered by the UTF-16 form
+            #    of their keys (ties by value), index exact.  The same objects with the keys replaced by a pair on which
+            #    code-point order and UTF-16 order disagree.
+            if want_op("canonicalize_with") and "root_object_canonicalize_with" in P.roots:
+                ren = {"k": objmodel.UKEYS[0], "m": objmodel.UKEYS[1]}
+                for variant in (before, [(ren[k], v) for k, v in before]):
+                    W = world()
+                    st = W.sh.st
+                    oref, cid = W.mk_object(st, variant)
+                    buf = st.new_obj(Top(None, "ryu-buffer"))
+                    o = one(W.call(st, root("root_object_canonicalize_with"), [oref, Ref(("H", buf.id), ())]), "canonicalize_with")
+                    want = sorted(variant, key=lambda e: (objmodel.U16_RANK[e[0]], e[1]))
+                    check_state(W, o, cid, "canonicalize_with", variant, want, "")
+                    canon = [e[1] for e in o.events if e[0] == "canon"]
+                    vals = sorted(v for _, v in variant)
+                    got = sorted(c.tag[1] for c in canon if isinstance(c, Top) and isinstance(c.tag, tuple) and c.tag[0] == "val")
+                    if got != vals and not only_index:
+                        fail("canonicalize_with", "values", "canonicalize_with on %s canonicalises the values %r, expected each of %r once" % (show(variant), got, vals))
             # -- queries
-            for k in KEYS + ("z",):
+            for k in (KEYS + ("z",)) if want_op("queries") else ():
                 pos = [i for i, e in enumerate(before) if e[0] == k]
                 W = world()
                 oref, cid = W.mk_object(W.sh.st, before)
@@ -651,9 +672,10 @@ def model_rule(ctx, res, only_index=False, rule="C06.model"):
         return
     res.count(rule + " objects", len(objs))
     res.count(rule + " cases", n_cases[0])
-    res.floor(rule, rule + " cases", 3000)
+    res.floor(rule, rule + " cases", 3000 if ops is None else 80)
     for key, detail in sorted(bad.items()):
         res.violation(rule, key, detail)
     if not bad:
         res.ob(True, rule, rule + "/all", "", sample={"objects": len(objs), "cases": n_cases[0], "verdict": "list semantics, results and exact index on all of them"})
-    res.infos.append("remove_unique on a duplicated key returns Err(Duplicate(first, second)) and, because the removal iterator's Drop finishes the removal, deletes every entry with that key; the documentation does not say what is left, so only the index is checked in that case")
+    if want_op("remove_unique"):
+        res.infos.append("remove_unique on a duplicated key returns Err(Duplicate(first, second)) and, because the removal iterator's Drop finishes the removal, deletes every entry with that key; the documentation does not say what is left, so only the index is checked in that case")
